@@ -545,7 +545,7 @@ pub fn finish(ctx: &Ctx) -> i32 {
     crate::engine::finish(
         ctx,
         Finish {
-            rule: "dr::Module values built directly from the public fields: header / memory model / function def / end / block label each present or absent, every section with 0-3 instructions, 0-3 functions x 0-3 blocks; every instruction carries a unique marker id and a varying word count; a quarter of the instructions carry a structural opcode (OpFunction, OpFunctionEnd, OpLabel, terminators, OpMemoryModel, OpLine ...) in whatever slot they happen to be stored; a third of the modules are sparse (most sections empty); a quarter of the instruction lists contain a run of 2-6 identical instructions. Oracle: own traversal written from the field list; all_inst_iter equals it; global_inst_iter is the prefix before the first function; Function::all_inst_iter is the k-th slice; each _mut traversal visits the same sequence and a mutation through it is seen by the read-only one at the same position; assemble() == header words ++ concat(assemble of each visited instruction) and tiles by word counts; assemble_into appends the same words; Function::assemble and Block::assemble are the corresponding slices; `over-long`: a module holding one instruction of 65530-69530 words (an id list or a string; its first word cannot express the count) with 0-2 instructions before and after it, with or without header: assemble() == header ++ concat(visited). non-trivial = module with >= 1 function and >= 6 instructions; distinct = hash of the assembled words.",
+            rule: "dr::Module values built directly from the public fields: header / memory model / function def / end / block label each present or absent, every section with 0-3 instructions, 0-3 functions x 0-3 blocks; every instruction carries a unique marker id and a varying word count; a quarter of the instructions carry a structural opcode (OpFunction, OpFunctionEnd, OpLabel, terminators, OpMemoryModel, OpLine ...) in whatever slot they happen to be stored; a third of the modules are sparse (most sections empty); a quarter of the instruction lists contain a run of 2-6 identical instructions. Oracle: own traversal written from the field list; all_inst_iter equals it; global_inst_iter is the prefix before the first function; Function::all_inst_iter is the k-th slice; each _mut traversal visits the same sequence and a mutation through it is seen by the read-only one at the same position; assemble() == header words ++ concat(assemble of each visited instruction) and tiles by word counts; assemble_into appends the same words; Function::assemble and Block::assemble are the corresponding slices; `over-long`: a module holding one instruction of 65530-69530 words (an id list or a string; its first word cannot express the count) with 0-2 instructions before and after it, with or without header: assemble() == header ++ concat(visited). non-trivial = module with >= 1 function and >= 6 instructions; distinct = hash of the assembled words. Added in rounds 18-19: content-rich modules (half of all sweep instructions at once, ids folded to 2-8 values); all five header fields varied.",
             assumptions: vec![],
             trusted_base: vec!["own field-order traversal".into(), "proptest".into()],
         },
